@@ -1607,7 +1607,8 @@ def build_units(ctx: Ctx, n_schemas: int, n_inst: int, nested_rate: float = 0.8)
                 if not ok:
                     ctx.count('gen:nested-instance-invalid')
                     continue
-                yield Unit(sid, xsd, schema, xml_n, root, ast, base_xml=xml, nsstats=st)
+                # (the generated text itself may repeat the root binding on inner elements: `hoisted()` re-serialises)
+                yield Unit(sid, xsd, schema, xml_n, root, ast, nsstats=st)
 
 
 def branches(u: Unit) -> list[str]:
